@@ -23,13 +23,16 @@ Check(c, o) ==
 \* process level: the real binary, SIGTERM / SIGINT at a point of a slow request
 \* repeat: a second stop signal ("TERM"/"INT") 300 ms after the first, while the request is still draining ("none" = one signal)
 \* point "outlasts": the request in flight takes longer (7 s) than the shutdown timeout (4 s): it may be cut, the bound holds
-ProcCases == {c \in [sig : {"TERM", "INT"}, point : {"idle", "before_headers", "mid_body", "outlasts"}, probing : BOOLEAN, repeat : {"none", "TERM", "INT"}] :
+\* tmo: the configured shutdown timeout in seconds (the in-flight requests of before_headers / mid_body need 0.7 s more)
+ProcCases == {c \in [sig : {"TERM", "INT"}, point : {"idle", "before_headers", "mid_body", "outlasts"}, probing : BOOLEAN,
+                     repeat : {"none", "TERM", "INT"}, tmo : {4, 1}] :
                 /\ (c.repeat # "none" => (c.point \notin {"idle", "outlasts"} /\ ~c.probing))
-                /\ (c.point = "outlasts" => c.sig = "TERM")}
+                /\ (c.point = "outlasts" => c.sig = "TERM" /\ c.tmo = 4)
+                /\ (c.tmo = 1 => (c.sig = "TERM" /\ ~c.probing /\ c.repeat = "none" /\ c.point \in {"before_headers", "mid_body"}))}
 \* o = [exit (exit status, -1 = killed by the harness after the bound), ms, status (in-flight request), complete (full body)]
 CheckProc(c, o) ==
   (IF o.exit # 0 THEN <<"ExitStatus">> ELSE <<>>)
-  \o (IF o.ms > 4000 + 1500 THEN <<"ShutdownTooSlow">> ELSE <<>>)
+  \o (IF o.ms > c.tmo * 1000 + 1500 THEN <<"ShutdownTooSlow">> ELSE <<>>)
   \o (IF c.point \notin {"idle", "outlasts"} /\ (o.status # 200 \/ ~o.complete) THEN <<"InFlightRequestCut">> ELSE <<>>)
   \o (IF o.probes_after > 0 THEN <<"ProbeAfterExit">> ELSE <<>>)
 =============================================================================
